@@ -6,7 +6,8 @@ import re
 from . import core, kunit
 
 OUT = [
-    "slices longer than 6 in try_sort (the run/merge path of the driver starts at 21 elements; merge and insert_head are decided directly on <= 5 elements)",
+    "slices longer than 6 in try_sort: the run/merge path of the driver starts at 21 elements; its run detection is decided on a "
+    "verbatim slice (<= 6 elements), insert_head directly (<= 5); `merge` and `collapse` are not decided",
     "XFormatting::from_str (regex), float/int format natives' text, to_str = format(x, \"\")",
     "derived eq/cmp/hash factories of tuples/sequences/optionals (need the evaluator), prelude order-statistic functions",
     "keys wider than 2 bits (the comparator is a total preorder on 4 keys; indices make elements distinct)",
